@@ -5,6 +5,7 @@
 package obs
 
 import (
+	"bytes"
 	"errors"
 	"fmt"
 	"sync"
@@ -226,6 +227,25 @@ func (g *RTCPGate) Write(pkts []rtcp.Packet, a interceptor.Attributes) (int, err
 		return 0, err
 	}
 	return n, nil
+}
+
+// ChangedAfterWrite re-marshals every packet object the gate was handed and compares with its
+// wire form at the time of the Write: a writer may queue what it is given, so a packet that
+// reads differently later was written into after it had been handed over. Returns a
+// description of the first such packet, or "".
+func (g *RTCPGate) ChangedAfterWrite() string {
+	for _, ev := range g.Events() {
+		for i, p := range ev.Pkts {
+			if p == nil || i >= len(ev.Raw) || ev.MErr[i] != nil {
+				continue
+			}
+			b, err := p.Marshal()
+			if err != nil || !bytes.Equal(b, ev.Raw[i]) {
+				return fmt.Sprintf("%T written at logical stamp %d as %x now marshals to %x (err %v)", p, ev.Stamp, ev.Raw[i], b, err)
+			}
+		}
+	}
+	return ""
 }
 
 // Events returns a snapshot.
